@@ -17,7 +17,7 @@ LENGTHS = {
     'C09': {'quick': [7, 14], 'thorough': [7, 8, 14, 15, 32]},
     'C10': {'quick': [14], 'thorough': [14, 15, 32]},
     'C07': {'quick': [14], 'thorough': [14, 15, 32]},
-    'C01': {'quick': [0, 1, 2, 3, 4, 5, 6, 7, 8, 11, 13, 14, 15], 'thorough': list(range(0, 33))},
+    'C01': {'quick': [0, 1, 4, 6, 7, 8, 13, 14], 'thorough': list(range(0, 33))},
 }
 
 DF_FILTER = {
@@ -89,6 +89,11 @@ def _retuple(t):
 
 
 def main(prop, tier):
+    results, coverage, t0 = run(prop, tier)
+    fw.finish(prop, tier, t0, results, coverage, ASSUME, level='model_checking', replay_fn=replay_violation)
+
+
+def run(prop, tier):
     t0 = time.time()
     files, dirs, info = fw.dump_all(['adsb_deku'])
     lengths = LENGTHS[prop][tier]
@@ -148,4 +153,4 @@ def main(prop, tier):
     }
     if cnt['unknown']:
         results.append({'inconclusive': '%d feasibility checks returned unknown during exploration' % cnt['unknown']})
-    fw.finish(prop, tier, t0, results, coverage, ASSUME, level='model_checking', replay_fn=replay_violation)
+    return results, coverage, t0
